@@ -25,6 +25,27 @@ CLAIMED = {
  "C20": dict(engine="E1", technique="explicit-state BFS x query menu x all write sequences <= 2",
    text="For every reached state, every query of the menu is evaluated and kept while every write sequence of length <= 2 is applied; Collect/Assign/One/Len on the kept value may only yield objects matched at evaluation time, once each.",
    note="Write sequences of length <= 2; depth of the base state as stated in evidence.", ref="6/C20"),
+ "C05": dict(engine="E3", technique="exhaustive crash-point and torn-write enumeration over the recorded file-operation log of every history",
+   text="Every history up to the depth is executed on the real write path over the logging file system; for every prefix of the mutation log of its last call (and 3 cut positions inside every write) the tree is materialised and a recovery protocol (Open, first load, agreement of index and independently decoded files, Repair, Control, old-or-new per object) is evaluated.",
+   note="Process-crash model (completed system calls persist in order) plus torn single writes; no reordering. One root cause (stale index entry after an interrupted update) is a known finding.", ref="6/C05", level="model_checking"),
+ "C06": dict(engine="E1+E3", technique="explicit-state BFS x rejection menu x follow-up letters; single-fault enumeration over file operations",
+   text="On every reached state every rejecting call of a 14-entry menu must fail with its class and leave the ordered observation vector and the files identical, and every alphabet call afterwards must still refine the reference; storage faults: every file operation of the last call of every short history fails once.",
+   note="One fault per execution; Close errors are not injected.", ref="6/C06"),
+ "C07": dict(engine="E1", technique="explicit-state BFS x exhaustive batch enumeration",
+   text="On every base state every batch up to the size bound over a 9-member menu (plus same-pointer members) at every position goes through InsertOrUpdateMany and through InsertOrUpdateBulk with every chunk size; (n, err) must equal the reference fold, failed batches leave no trace.",
+   note="Batch size <= 2 (quick) / 3 (thorough); chunk sizes 0..4.", ref="6/C07"),
+ "C11": dict(engine="E4", technique="exhaustive enumeration of fault assignments on every base database",
+   text="Every assignment of {intact, file removed, index entries removed, both} to each object x extra files x schema removed, on every base database and configuration; detection iff id sets differ, Repair restores agreement without touching object files; partial (internally inconsistent) removals must be reported.",
+   note="Base databases with <= 3 objects.", ref="6/C11"),
+ "C14": dict(engine="E4", technique="exhaustive enumeration of object shapes x mutation points x storage modes",
+   text="Every shape (singles and pairs of 11 container fields nil/empty/non-empty; thorough: all 3^6 fillings of pointer-bearing fields) is stored under 5 storage modes; each of 18 mutators is applied to the caller's object and to returned objects; every read path must keep returning the accepted value; reflection walk for shared memory.",
+   note="Strings and unexported fields are skipped as documented.", ref="6/C14"),
+ "C15": dict(engine="E1", technique="exhaustive scenario enumeration with a hook recorder",
+   text="Every insertion entry point x offender position x pre-state x name class x configuration with a type whose validity depends on hook order; the recorder hashes the whole handle and counts file mutations inside every hook call.",
+   note="Batch size <= 3.", ref="6/C15"),
+ "C16": dict(engine="E4", technique="exhaustive enumeration of all code points and short strings; per-string database scenario",
+   text="All 1 112 064 Unicode scalar values and all strings up to the length bound over a case-folding-hostile alphabet go through the real constraint code (mapping and idempotence); each string is stored at every constrained path and searched with case variants and neighbours; uniqueness on canonical values.",
+   note="Valid UTF-8 only; strings of length <= 2 (quick) / 3 (thorough).", ref="6/C16"),
 }
 
 NOT_YET = {}
